@@ -317,15 +317,25 @@ async def _t_walks_async(args):
             c = im["xm"].MAX_CHUNK_SIZE
             st, x = common.impl_call(lambda: im["xm"].Xfer(data=payload))
             if st != "ok":
-                traces.append([{"ev": "Start", "proto": proto, "n": n, "C": c, "pieces": [], "eofs": [], "head": []}])
+                traces.append([{"ev": "Start", "proto": proto, "n": n, "C": c, "ids": [], "pieces": [], "eofs": [], "head": []}])
                 continue
-            pieces = [bytes(x.chunks[k]) for k in sorted(x.chunks)]
+            # whatever the sender produced is an observation: nothing below relies on it being well-formed
+            st, got = common.impl_call(lambda: [(int(k), bytes(x.chunks[k])) for k in sorted(x.chunks)])
+            if st != "ok":
+                traces.append([{"ev": "Start", "proto": proto, "n": n, "C": c, "ids": [], "pieces": [], "eofs": [], "head": []}])
+                continue
+            ids, pieces = [k for k, _ in got], [b for _, b in got]
         else:
             c = 1000
             pieces = [payload[i:i + c] for i in range(0, len(payload), c)] or [b""]
+            ids = list(range(len(pieces)))
         eofs = [1 if i == len(pieces) - 1 else 0 for i in range(len(pieces))]
-        evs.append({"ev": "Start", "proto": proto, "n": n, "C": c, "pieces": [len(p) for p in pieces], "eofs": eofs,
-                    "head": list(pieces[0][:16])})
+        evs.append({"ev": "Start", "proto": proto, "n": n, "C": c, "ids": ids, "pieces": [len(p) for p in pieces], "eofs": eofs,
+                    "head": list(pieces[0][:16]) if pieces else []})
+        if not pieces or ids != list(range(len(pieces))):
+            # the Start record alone convicts the sender (piece count / numbering); there is nothing sensible to deliver
+            traces.append(evs)
+            continue
         order = list(range(len(pieces)))
         mode = rng.randrange(4)
         if mode == 0:
@@ -1046,7 +1056,8 @@ def _assets(chk: Check):
             good.append(ev)
         for i in range(0, len(good), 20):
             traces.append(good[i:i + 20])
-    cfg = "SPECIFICATION TraceSpec\nPOSTCONDITION TraceAccepted\nCHECK_DEADLOCK FALSE\n"
+    cfg = ('SPECIFICATION TraceSpec\nCONSTANTS Segs = {"x"} MaxEdits = 0 PreferRaw = FALSE\n'
+           "POSTCONDITION TraceAccepted\nCHECK_DEADLOCK FALSE\n")
     acc, rej, results = common.validate_traces("AssetLayout_Trace", cfg, traces, chk.scratch, shards=4, tag="c20a")
     for r in results:
         chk.add_tlc(r, "AssetLayout_Trace")
@@ -1071,6 +1082,168 @@ def _assets(chk: Check):
     chk.sample({"binding": "B2 asset records", "events": [{k: (v if k != "bytes" else v[:16]) for k, v in e.items()} for e in traces[0][:2]]})
 
 
+
+# ----------------------------------------------------------------------------------------
+# Mesh object life cycle (AssetLayout.tla, AssetLayout_MBT): built / parsed / parsed with raw
+# segments; edit, drop the parsed form, serialise, re-parse.  B1: every edge replayed.
+# ----------------------------------------------------------------------------------------
+
+_LIFE_SEGS = ("high_lod", "physics_mesh", "physics_convex")
+# contents that the quantised arrays represent exactly, one per version
+_LIFE_POS = [(0.0, 0.0, 0.0), (1.0, 1.0, 1.0), (1.0, 0.0, 1.0), (0.0, 1.0, 1.0)]
+_LIFE_BV = [(-1.0, 1.0, -1.0), (1.0, 1.0, 1.0), (1.0, -1.0, 1.0), (-1.0, -1.0, 1.0)]
+
+
+def _life_content(seg, v):
+    from hippolyzer.lib.base.datatypes import Vector3
+    if seg == "physics_convex":
+        return {"BoundingVerts": Vector3(*_LIFE_BV[v])}
+    return {"TriangleList": [v, v + 1, v + 2], "Position": Vector3(*_LIFE_POS[v])}
+
+
+def _life_apply(model, seg, v):
+    c = _life_content(seg, v)
+    if seg == "physics_convex":
+        model.segments[seg]["BoundingVerts"][0] = c["BoundingVerts"]
+    else:
+        model.segments[seg][0]["TriangleList"][0] = c["TriangleList"]
+        model.segments[seg][0]["Position"][0] = c["Position"]
+
+
+def _life_version(segments, seg):
+    """Projection: which version does this segment hold (-2: none of them / mixed)."""
+    try:
+        if seg == "physics_convex":
+            t = tuple(segments[seg]["BoundingVerts"][0])
+            return _LIFE_BV.index(t) if t in _LIFE_BV else -2
+        tri = list(segments[seg][0]["TriangleList"][0])
+        v = tri[0]
+        if tri != [v, v + 1, v + 2] or not 0 <= v < len(_LIFE_POS) or tuple(segments[seg][0]["Position"][0]) != _LIFE_POS[v]:
+            return -2
+        return v
+    except Exception:  # noqa
+        return -2
+
+
+def _life_build():
+    from hippolyzer.lib.base.mesh import MeshAsset
+    from hippolyzer.lib.base.datatypes import Vector3, Vector2
+    m = MeshAsset()
+    m.header = {"version": 1}
+
+    def lod():
+        return {"Normal": [Vector3(-1.0, 1.0, -1.0), Vector3(1.0, -1.0, 1.0), Vector3(1.0, 1.0, -1.0)],
+                "PositionDomain": {"Max": [0.5, 0.5, 0.25], "Min": [-0.5, -0.5, -0.25]},
+                "Position": [Vector3(0.0, 0.0, 0.0), Vector3(1.0, 0.0, 0.0), Vector3(0.0, 1.0, 0.0)],
+                "TexCoord0Domain": {"Max": [1.0, 1.0], "Min": [0.0, 0.0]},
+                "TexCoord0": [Vector2(0.0, 0.0), Vector2(1.0, 0.0), Vector2(0.0, 1.0)],
+                "TriangleList": [[0, 1, 2], [2, 1, 0]]}
+    m.segments["high_lod"] = [lod(), lod()]
+    m.segments["physics_mesh"] = [lod()]
+    m.segments["physics_convex"] = {"BoundingVerts": [Vector3(-1.0, 1.0, -1.0), Vector3(-1.0, -1.0, -1.0), Vector3(1.0, -1.0, -1.0)],
+                                    "Max": [0.5, 0.5, 0.0], "Min": [-0.5, -0.5, 0.0]}
+    for k in _LIFE_SEGS:
+        m.header[k] = {"offset": 0, "size": 0}
+    return m
+
+
+_LG: Graph = None
+
+
+def _life_replay_chunk(edge_ids):
+    import hippolyzer.lib.base.serialization as se
+    from hippolyzer.lib.base.mesh import LLMeshSerializer
+    g = _LG
+    out = []
+    steps = 0
+
+    def dump(m):
+        w = se.BufferWriter("!")
+        w.write(LLMeshSerializer(), m)
+        return w.copy_buffer()
+
+    def load(b, keep_raw):
+        return se.BufferReader("!", b).read(LLMeshSerializer(include_raw_segments=keep_raw))
+    for ei in edge_ids:
+        e = g.edges[ei]
+        hist = [pe["act"] for pe in g.path_to(e["_s"])] + [e["act"]]
+        model, data, cur = _life_build(), None, {s: 0 for s in _LIFE_SEGS}
+        bad = []
+        for a in hist:
+            steps += 1
+            if a["n"] == "Edit":
+                cur[a["s"]] = _life_version(model.segments, a["s"]) + 1
+                st, r = common.impl_call(_life_apply, model, a["s"], cur[a["s"]])
+            elif a["n"] == "Drop":
+                st, r = common.impl_call(model.segments.pop, a["s"])
+            elif a["n"] == "Serialize":
+                st, r = common.impl_call(dump, model)
+                if st == "ok":
+                    data = r
+            else:
+                st, r = common.impl_call(load, data, a["raw"])
+                if st == "ok":
+                    model = r
+            if st != "ok":
+                bad.append(("codec raised", a, r))
+                break
+        obs = e["obs"]
+        if not bad:
+            for s in _LIFE_SEGS:
+                if s in obs["dropped"]:
+                    if s in model.segments or s not in model.raw_segments:
+                        bad.append(("dropped segment: object state", s, sorted(model.segments)))
+                elif _life_version(model.segments, s) != obs["cur"][s]:
+                    bad.append(("current model holds another version", [s, obs["cur"][s]], _life_version(model.segments, s)))
+            if sorted(model.raw_segments) != sorted(obs["rawHas"]):
+                bad.append(("raw copies kept", sorted(obs["rawHas"]), sorted(model.raw_segments)))
+            if all(v >= 0 for v in obs["wire"].values()):
+                st, back = common.impl_call(load, data, False)
+                if st != "ok":
+                    bad.append(("codec raised", "parse of the serialisation", back))
+                else:
+                    for s in _LIFE_SEGS:
+                        got = _life_version(back.segments, s)
+                        if got != obs["wire"][s]:
+                            bad.append(("serialisation does not hold the current model (edit lost)", [s, obs["wire"][s]], got))
+                    if e["act"]["n"] == "Serialize":
+                        # the law itself, on the real objects: parse(serialise(m)) = m (dropped segments have no parsed form in m)
+                        same = all(back.segments.get(s) == model.segments.get(s) for s in _LIFE_SEGS if s not in obs["dropped"])
+                        if not same:
+                            bad.append(("parse(serialise(m)) differs from m", True, False))
+        if bad:
+            out.append({"history": hist, "mismatches": [[c, x, y if isinstance(y, (int, str, list, bool)) else repr(y)[:300]] for c, x, y in bad[:6]]})
+    return steps, out
+
+
+def _mesh_life(chk: Check):
+    global _LG
+    depth = 6 if chk.tier == "quick" else 8
+    consts = 'CONSTANTS Segs = {"high_lod", "physics_mesh", "physics_convex"} MaxEdits = 2 PreferRaw = FALSE Depth = %d\nCONSTRAINT Bound\n' % depth
+    common.model_check(chk, "AssetLayout_MBT", "SPECIFICATION Spec\n" + consts + "INVARIANT Faithful\nINVARIANT RawIsACopy\n",
+                       "AssetLayout mesh life cycle d%d" % depth)
+    recs = common.export_records(chk, "AssetLayout_MBT", "SPECIFICATION MSpec\n" + consts, "AssetLayout_MBT d%d" % depth)
+    g = Graph(recs)
+    _LG = g
+    ids = g.reachable_edges()
+    results = common.parallel_map(_life_replay_chunk, [c for c in (ids[i::common.NCPU * 2] for i in range(common.NCPU * 2)) if c])
+    chk.count(sum(r[0] for r in results))
+    chk.cov["traces_validated_against_impl"] += len(ids)
+    chk.cov["b1_edges_replayed"] = chk.cov.get("b1_edges_replayed", 0) + len(ids)
+    agg = _Agg()
+    for _, bads in results:
+        for b in bads:
+            for c, x, y in b["mismatches"]:
+                agg.add(("mesh life cycle", c), len(b["history"]),
+                        {"kind": "b1", "part": "mesh-life", "clause": c}, {"history": b["history"], "expected": x, "got": y})
+    agg.report(chk, "B1")
+    for e in g.edges:
+        if e["act"]["n"] == "Serialize" and (e["src"]["cur"] != e["src"]["raw"] and e["src"]["mode"] == "parsedRaw"):
+            chk.nontrivial(("life", e["_s"]))
+    e = g.edges[len(g.edges) * 2 // 3]
+    chk.sample({"binding": "B1 mesh life cycle", "history": [p["act"] for p in g.path_to(e["_s"])] + [e["act"]], "expected": e["obs"]})
+
+
 def run(chk: Check):
     chk.cov["rule"] = ("transfer: B3 sender pieces at the real chunk size for payload lengths around every boundary; B1 every "
                        "arrival sequence with duplicates/foreign packets of the bounded model (scaled chunk size) delivered as "
@@ -1080,7 +1253,9 @@ def run(chk: Check):
                        "the reflected field tables and prints token lines / key sets; each row is replayed with generated "
                        "values through to_str/from_str, to_llsd/from_llsd at node and model level; every enum member through "
                        "its lookup name. animation/mesh: generated models, layout (sizes, count positions, segment placement) "
-                       "recomputed by TLC, round-trip equalities recorded. non-trivial = duplicate/out-of-order arrivals, "
+                       "recomputed by TLC, round-trip equalities recorded; mesh object life cycle (built/parsed/parsed with raw segments; "
+                       "edit, drop parsed form, serialise, re-parse): every edge of the bounded model replayed into real MeshAsset/"
+                       "LLMeshSerializer objects. non-trivial = duplicate/out-of-order arrivals, "
                        "multi-piece walks, rows with at least one optional field, animations with key frames, meshes with "
                        ">= 3 segments.")
     chk.assumptions += [
@@ -1103,4 +1278,5 @@ def run(chk: Check):
     _transfer(chk)
     _inventory(chk)
     _assets(chk)
+    _mesh_life(chk)
     chk.cov["exhaustive"] = True
